@@ -24,6 +24,10 @@ TRACE = {'clock.py': None, 'machine.py': {'run', 'stop', '_wait'},
 TRACE_JC = dict(TRACE, **{'job_control.py': None})
 TRACE_WEB = dict(TRACE_JC, **{'web_app.py': {'stop_all'}})
 POP = [{"label": "A", "group": "G", "location": "L", "kind": "plain",
+        "color": [0, 0, 0, 3500], "power": 0},
+       {"label": "B", "group": "G", "location": "L", "kind": "plain",
+        "color": [0, 0, 0, 3500], "power": 0},
+       {"label": "C", "group": "G", "location": "L", "kind": "plain",
         "color": [0, 0, 0, 3500], "power": 0}]
 DAY0 = 1036800.0
 CMD_METHODS = ('set_power_all_lights', 'set_color_all_lights', 'set_power', 'set_color')
@@ -34,6 +38,9 @@ SHAPES = {
     'repeat': ('repeat begin on all off all end', 0.25, 9 * 3600, None),
     'timed': ('time 2 on all off all on all', 0.5, 9 * 3600, 3),
     'timeofday': ('time at 10:0* on all time 30 off all', 15.0, 9 * 3600 + 57 * 60 + 30, 2),
+    # one command, several operands: one WAIT, then one device command per light — a stop between
+    # two of them ends the script after the one in progress
+    'multi': ('on "A" and "B" and "C" off "A" and "B" and "C" on "B" and "A" and "C" off "C" and "A"', 0.25, 9 * 3600, 11),
 }
 NEXT_JOB = 'hue 120 saturation 100 brightness 50 kelvin 2700 set all set all'   # 2 set_color commands
 NEXT_CMDS = 2
@@ -457,8 +464,8 @@ def judge(sc, res):
             rearmed = any(f[2] == '_keep_running' and f[3] and f[4] == first[4] and f[0] >= first[0]
                           and f[1].startswith('M') for f in res.flags)
     first_phase = res.cmds[:m['cmds_before_rerun']] if 'cmds_before_rerun' in m else res.cmds
-    a_cmds = [c for c in first_phase if c[2] == 'set_power_all_lights']     # job A switches power
-    b_cmds = [c for c in first_phase if c[2] == 'set_color_all_lights']     # job B sets colours
+    a_cmds = [c for c in first_phase if c[2] in ('set_power_all_lights', 'set_power')]   # job A switches power
+    b_cmds = [c for c in first_phase if c[2] in ('set_color_all_lights', 'set_color')]   # job B sets colours
     took_effect = stopped and (m.get('m1_alive_at_stop_end') or len(a_cmds) < (full or 10 ** 9))
     if res.outcome == 'deadlock':
         who = [n for n, _ in res.deadlocked if n != 'main']
